@@ -7,7 +7,7 @@ import warnings
 import numpy as np
 
 from . import interp, probes
-from .common import digest
+from .common import scribble, digest
 from .replay_poplayout import KIND_CLASS
 
 chi = probes.chi
@@ -160,6 +160,7 @@ def replay_case(arg):
     for per_individual in variants:
         try:
             model = make_model(rec)
+            scribble(model)
         except Exception as e:
             fail('Construct', type(e).__name__, repr(e))
             return fails, cnt
